@@ -461,7 +461,11 @@ class RequestHandler(BaseProtocol, Generic[_Request]):
                 exc = ConnectionResetError("Connection lost")
             self._current_request._cancel(exc)
 
-        if handler_cancellation and self._task_handler is not None:
+        # Without a running handler start() only idles or lingers for input
+        # that can no longer arrive.
+        if self._task_handler is not None and (
+            handler_cancellation or not self._request_in_progress
+        ):
             self._task_handler.cancel()
 
         # A handler that goes on without its client keeps its task, so that
